@@ -26,6 +26,8 @@ type Late struct {
 	First  []bool   `json:"first"`  // per cycle: the held activity is the first load of a further location (else a refresh)
 	NewOK  []bool   `json:"new_ok"` // per cycle: the list offered to the held activity is acceptable (else garbage)
 	Strict bool     `json:"strict"`
+	// Background: crl_fetch_mode fetch_background (a first load then runs inside a refresh run, without the entry lock)
+	Background bool `json:"background,omitempty"`
 	// BadFirst: per cycle: before the cycle's provisioning, a provisioning attempt with a broken configuration (an
 	// additional crl_url that serves no CRL) fails on the same work_dir and is cleaned up by the host
 	BadFirst []bool `json:"bad_first,omitempty"`
@@ -38,7 +40,7 @@ var firstSites = []string{"repo.stage.downloaded", "repo.stage.parsed", "repo.st
 	"leveldb.update.start", "leveldb.update.old-closed", "leveldb.update.new-moved", "leveldb.update.reopened", "map.update.cleared"}
 
 func genLate(t *rapid.T) Late {
-	c := Late{Disk: rapid.IntRange(0, 3).Draw(t, "disk") > 0, Conf: rapid.IntRange(0, 2).Draw(t, "conf") == 0, Strict: rapid.Bool().Draw(t, "strict")}
+	c := Late{Disk: rapid.IntRange(0, 3).Draw(t, "disk") > 0, Conf: rapid.IntRange(0, 2).Draw(t, "conf") == 0, Strict: rapid.Bool().Draw(t, "strict"), Background: rapid.IntRange(0, 2).Draw(t, "background") == 0}
 	k := rapid.IntRange(1, 5).Draw(t, "k")
 	for i := 0; i < k; i++ {
 		first := rapid.IntRange(0, 2).Draw(t, fmt.Sprintf("first%d", i)) == 0
@@ -84,7 +86,7 @@ func runLate(c Late, x *ev.Ctx) error {
 	listed := pki.ChainFor(pki.Leaf("0a", []string{url}, nil))
 	unlisted := pki.ChainFor(pki.Leaf("0c", []string{url}, nil))
 	listed2 := pki.ChainFor(pki.Leaf("0a", []string{url2}, nil))
-	opts := world.CRLOpts{WorkDir: wd, Disk: c.Disk, Strict: c.Strict, Sig: "verify", Trusted: []*x509.Certificate{pki.Issuer().Cert}}
+	opts := world.CRLOpts{WorkDir: wd, Disk: c.Disk, Strict: c.Strict, Sig: "verify", Trusted: []*x509.Certificate{pki.Issuer().Cert}, Background: c.Background}
 	if c.Conf {
 		opts.URLs = []string{url}
 	}
@@ -107,6 +109,10 @@ func runLate(c Late, x *ev.Ctx) error {
 		ch, err := world.NewChecker(opts)
 		if err != nil {
 			return fmt.Errorf("cycle %d: provisioning on the work_dir failed after the previous Cleanup (previous cycle held at %s): %v", i, prevSite(c, i), err)
+		}
+		if c.Background {
+			world.Ask(ch, listed) // announces the location
+			world.Call("refresh", 2*time.Minute, func() int { ch.VerifForceUpdate(); return 0 })
 		}
 		if v := world.Ask(ch, listed); v.Kind != "revoked" {
 			ch.Cleanup()
@@ -143,6 +149,10 @@ func runLate(c Late, x *ev.Ctx) error {
 			defer close(finished)
 			if c.First[i] {
 				world.Ask(ch, listed2)
+				if c.Background {
+					// the handshake only announced the location; the refresh run performs the first load
+					world.Call("refresh", 2*time.Minute, func() int { ch.VerifForceUpdate(); return 0 })
+				}
 			} else {
 				world.Call("refresh", 2*time.Minute, func() int { ch.VerifForceUpdate(); return 0 })
 			}
@@ -189,7 +199,7 @@ func runLate(c Late, x *ev.Ctx) error {
 		if cleanupFirst {
 			x.Class("cleanup-returned-while-activity-held")
 		}
-		if err := settled(wd, base, fmt.Sprintf("cycle %d, after Cleanup arrived while the activity was held at %s (first=%v acceptable=%v) and the activity finished", i, site, c.First[i], c.NewOK[i])); err != nil {
+		if err := settledWithin(wd, base, fmt.Sprintf("cycle %d, after Cleanup arrived while the activity was held at %s (first=%v acceptable=%v) and the activity finished", i, site, c.First[i], c.NewOK[i]), 45*time.Second); err != nil {
 			return err
 		}
 	}
@@ -198,12 +208,16 @@ func runLate(c Late, x *ev.Ctx) error {
 	if err != nil {
 		return fmt.Errorf("final provisioning on the work_dir failed (previous cycle held at %s): %v", prevSite(c, len(c.Sites)), err)
 	}
+	if c.Background {
+		world.Ask(ch, listed)
+		world.Call("refresh", 2*time.Minute, func() int { ch.VerifForceUpdate(); return 0 })
+	}
 	v := world.Ask(ch, listed)
 	ch.Cleanup()
 	if v.Kind != "revoked" {
 		return fmt.Errorf("final cycle: the listed certificate answers %v", v)
 	}
-	if err := settled(wd, base, "after the final Cleanup"); err != nil {
+	if err := settledWithin(wd, base, "after the final Cleanup", 45*time.Second); err != nil {
 		return err
 	}
 	if reached > 0 {
@@ -223,7 +237,7 @@ var lateSpec = ev.Spec[Late]{
 	ID:   "C20",
 	Gen:  genLate,
 	Run:  runLate,
-	Rule: "late activity: 1..5 provision/cleanup cycles on one work_dir in which Cleanup arrives while a refresh or the first load of a further location is held at one of the verif hook sites (download done, parsed, accepted, before/after the store swap, every step of the LevelDB / map swap); the held activity is then released and finishes AFTER Cleanup; the offered list is acceptable or garbage; disk or memory, optionally a configured crl_url; optionally a provisioning attempt with a broken configuration (rejected, cleaned up by the host) precedes a cycle. Oracles: Cleanup returns; the activity finishes; afterwards no goroutine of the plugin/leveldb is alive and no file descriptor of the process points into work_dir; the next provisioning on the same work_dir succeeds and the listed certificate is revoked, the unlisted one accepted. Non-trivial: the activity really was held at the site at least once.",
+	Rule: "late activity: 1..5 provision/cleanup cycles on one work_dir in which Cleanup arrives while a refresh or the first load of a further location is held at one of the verif hook sites (download done, parsed, accepted, before/after the store swap, every step of the LevelDB / map swap); the held activity is then released and finishes AFTER Cleanup; the offered list is acceptable or garbage; disk or memory, fetch_actively or fetch_background, optionally a configured crl_url; optionally a provisioning attempt with a broken configuration (rejected, cleaned up by the host) precedes a cycle. Oracles: Cleanup returns; the activity finishes; afterwards (within 45 s: refresh runs that were under way wind down in bounded time) no goroutine of the plugin/leveldb is alive and no file descriptor of the process points into work_dir; the next provisioning on the same work_dir succeeds and the listed certificate is revoked, the unlisted one accepted. Non-trivial: the activity really was held at the site at least once.",
 }
 
 func TestLate(t *testing.T)       { ev.Check(t, lateSpec) }
